@@ -60,6 +60,10 @@ def run(chk):
                                             'first_op': sc['ops'][0]['op'], 'input': sc['ops'][0].get('input'),
                                             'elem': sc['ops'][0].get('elem'), 'lifespan': sc['ops'][0].get('worker_lifespan') is not None})
     proto_correspondence(chk, 'protocol traces vs Mpire.Proto.step', scs, obs)
+    tp = gen.two_pool_scenarios(rng, 40 if chk.tier == 'quick' else 600)
+    run_scenarios(chk, 'two pools at work in one process (results of both == sequential evaluation)', tp, {'C01'}, nontrivial=lambda sc, o: True,
+                  dist=lambda sc, o: {'n_jobs': sc['pool']['n_jobs'], 'other_n_jobs': sc['ops'][0]['n_jobs'], 'other_lifespan': sc['ops'][0]['lifespan'],
+                                      'outcomes': str(sorted({x.get('outcome') for x in o.get('ops', [])}))})
     chk.assumptions += ['pickling of arguments/results and numpy slicing/concatenate are not modelled',
                         'DetSim replaces multiprocessing queues/processes/signals; interleavings are those of a seeded scheduler at primitive-operation granularity']
 
